@@ -65,6 +65,9 @@ func VerifNewChunkTCP(src, dst *net.TCPAddr, flags uint8, payload []byte) Chunk 
 	return c
 }
 
+// VerifStamp gives the chunk a timestamp (now), as Router.push does when a chunk enters a router.
+func VerifStamp(c Chunk) { c.setTimestamp() }
+
 // VerifNAT wraps the unexported translator.
 type VerifNAT struct{ n *networkAddressTranslator }
 
